@@ -41,6 +41,7 @@ def check(chk):
     _getparams(chk)
     _state(chk)
     _protocol(chk)
+    _named(chk)
     _alias(chk)
     _codec(chk)
     chk.floor("SERIAL.closure", 29)
@@ -346,6 +347,42 @@ def _protocol(chk):
         chk.check(bool(ws), "SERIAL.protocol", fn, node,
                   why=f"deserialisation reads the marker {lit!r} which no serialiser of the '{g}' protocol writes",
                   facts={"marker": lit, "group": g, "written_by": sorted(ws)})
+
+
+def _named(chk, rule="SERIAL.named"):
+    """`Transformer._serialize_data` decides by `data.name in data.coords` whether a state array is a coordinate (stored as
+    the coordinate itself) or a data variable.  An array COMPUTED from a coordinate (xr.apply_ufunc on `data.coords[dim]`,
+    arithmetic on it) keeps the coordinate's name unless it is renamed: it would be written as that coordinate and come
+    back from deserialisation labelled with its own values.  Every function that returns such an array names it."""
+    pm = chk.pm
+    ser = pm.cls("xeofs.preprocessing.transformer.Transformer").methods.get("_serialize_data")
+    chk.require(ser is not None and "name in" in norm(ser.node) and ".coords" in norm(ser.node),
+                "Transformer._serialize_data no longer tells coordinates from variables by `name in coords` (re-read the rule)")
+    n = 0
+    for fn in pm.all_functions():
+        if not fn.module.name.startswith(("xeofs.utils.xarray_utils", "xeofs.preprocessing")):
+            continue
+        ff = FuncFacts.of(fn)
+        for r in [x for x in walk_no_nested(fn.node) if isinstance(x, ast.Return) and x.value is not None]:
+            ps = ff.paths(r.value, spine_only=True)
+            derived = [p for p in ps if p.has_op("attr", "coords") and p.has_op("subscript") and any(o.kind in ("arg", "binop") for o in p.ops[[i for i, o in enumerate(p.ops) if o.kind == "attr" and o.name == "coords"][0]:])]
+            if not derived:
+                continue
+            n += 1
+            named = any(p.has_op("method", "rename") for p in derived)
+            if isinstance(r.value, ast.Name):
+                for st in walk_no_nested(fn.node):
+                    if isinstance(st, ast.Assign) and isinstance(st.targets[0], ast.Attribute) and st.targets[0].attr == "name" \
+                            and isinstance(st.targets[0].value, ast.Name) and st.targets[0].value.id == r.value.id and isinstance(st.value, ast.Constant) \
+                            and ff.cfg.dominates(ff.cfg.node_for(st), ff.cfg.node_for(r)):
+                        named = True
+            for p in derived:
+                if p.atom.kind == "call" and p.atom.name.endswith("DataArray") and isinstance(p.atom.node, ast.Call) and any(k.arg == "name" for k in p.atom.node.keywords):
+                    named = True
+            chk.check(named, rule, fn, r, construct=f"{fn.qualname}: array computed from a coordinate is given its own name",
+                      why="the returned array is computed from a coordinate variable and keeps that coordinate's name: the serialiser (name in coords) stores it as "
+                          "the coordinate, and the deserialised transformer carries the array's VALUES as its labels - scaling then aligns on nothing")
+    chk.require(n >= 1, "no function returns an array computed from a coordinate (anchor of SERIAL.named vanished)")
 
 
 def _alias(chk):
